@@ -245,11 +245,11 @@ func c30Num(r *Rand) string {
 // ---------- valid descriptions (grammar) ----------
 
 type c30Shape struct {
-	PlanB     bool // mids audio/video/data and several tracks per section
-	Bundle    bool
-	SessionFP bool
+	PlanB      bool // mids audio/video/data and several tracks per section
+	Bundle     bool
+	SessionFP  bool
 	SessionIce bool
-	Answer    bool
+	Answer     bool
 }
 
 func c30CommonMediaAttrs(r *Rand, sh c30Shape, mid string, first bool) []c30Attr {
